@@ -162,6 +162,24 @@ fn c16_subs<B: Fld>(run: &Arc<Run>) -> Vec<Arc<dyn Sub>> {
             if div.degree() != n - e {
                 out.violation(format!("{}: transition divisor reports a wrong degree", B::NAME), d());
             }
+            // the divisor ATTACHED to the transition constraints of a context with e exemptions is this one (the
+            // constructor of the constraint set builds it from the context, not from the caller's count)
+            match pan::catch(|| {
+                let ctx = ctx_for::<B>(n, 1).set_num_transition_exemptions(e);
+                let tc = air::TransitionConstraints::<B>::new(&ctx, &[B::mk(1)]);
+                let dv = tc.divisor();
+                (dv.numerator().iter().map(|(a, b)| (*a, b.int())).collect::<Vec<_>>(), dv.exemptions().iter().map(|x| x.int()).collect::<BTreeSet<u128>>(), dv.exemptions().len(), dv.degree())
+            }) {
+                Ok((num, ex, ex_len, deg)) => {
+                    if num != vec![(n, 1u128)] || ex != want_ex || ex_len != e || deg != n - e {
+                        out.violation(
+                            format!("{}: the divisor attached to the transition constraints of a context does not vanish on exactly the non-exempt steps", B::NAME),
+                            json!({"case": d(), "attached_exemption_points": ex_len, "attached_degree": deg}),
+                        );
+                    }
+                },
+                Err(pr) => out.violation(format!("{}: TransitionConstraints::new panics for a legal exemption count ({})", B::NAME, pr.class()), d()),
+            }
             // as a polynomial it equals prod_{i < n-e} (x - g^i): compare at n+1 points of a coset
             // disjoint from the trace domain (degree <= n fixes the polynomial)
             let h = root_of_unity::<B>((2 * n).ilog2());
